@@ -313,6 +313,30 @@ def run(ctx, anchors=None):
     ctx.inst(okd, "R04.2", "counter-1-on-rewind", rewind.loc(decs[0]) if decs else rewind.loc(),
              "%s is decremented exactly once on the accepted path of RewindScript" % counter)
 
+    # ---- R04.1b every restored field is restored from its own snapshot (not recomputed)
+    snap_dst = {dst for h, (dst, rn) in restores.items() if h in pushed and pushed[h][0] == dst}
+    for key, lst in sorted(groups.items()):
+        if key in EXEMPT or key[:1] in EXEMPT:
+            continue
+        if not (covered(key, Rs) or covered(lst[0][0], Rs)):
+            continue   # already reported by R04.1
+        f0 = key[:1]
+        name = ".".join(key)
+        ctx.site()
+        ok_snap = any(key[:len(d)] == d or d[:len(key)] == key for d in snap_dst)
+        ctx.inst(ok_snap, "R04.1", "restored-from-snapshot=" + name, Rs.get(f0, Rs.get(key, ("", rewind.loc())))[1],
+                 "'%s' is restored from a snapshot taken before the step" % name,
+                 "'%s' is written by a step but RewindScript does not restore it from a snapshot of its pre-step value (it is recomputed / adjusted instead, at %s): "
+                 "any step that changes it by more than the assumed amount is not undone" % (name, Rs.get(f0, Rs.get(key, ("", "?")))[1]))
+    # reads of the history must be guarded by a non-emptiness test
+    backs = [n for n in rewind.nodes() if n["k"] == "mcall" and n.get("n") in ("back", "pop_back") and efields(rewind, n.get("obj")) and efields(rewind, n.get("obj"))[0][0].endswith("_history")]
+    tests = [n for n in rewind.nodes() if n["k"] == "mcall" and n.get("n") in ("size", "empty") and efields(rewind, n.get("obj")) and efields(rewind, n.get("obj"))[0][0].endswith("_history")]
+    unguarded = [b for b in backs if not any(rcfg.dominates(t_, b) for t_ in tests)]
+    ctx.inst(not unguarded, "R04.3", "history-read-guarded", rewind.loc(unguarded[0]) if unguarded else rewind.loc(),
+             "every back()/pop_back() on a history vector is dominated by a size/empty test of a history vector",
+             "RewindScript reads %s without testing that the history is non-empty: after a failed first step (pc moved, history empty) a rewind reads before the vector"
+             % (astq.estr(unguarded[0]) if unguarded else ""))
+
     # ---- R04.3 refusal precedes mutation
     for fn_anchor, label in ((A["rewind"], "RewindScript"), (A["inst_rewind"], "Instance::rewind")):
         f = fb.fn(*fn_anchor)
@@ -372,6 +396,8 @@ def run(ctx, anchors=None):
 
 
 MUTANTS = [
+    dict(name="opcount-recomputed-on-rewind", file="debugger/interpreter.cpp", find="    env.nOpCount = env.nOpCount_history.back();\n", replace="    if (env.nOpCount > 0) env.nOpCount--;\n", expect=["R04.1:restored-from-snapshot=nOpCount", "R04.2:restore:nOpCount_history"]),
+    dict(name="empty-history-guard-removed", file="debugger/interpreter.cpp", find="    if (env.stack_history.size() == 0) {\n        printf(\"no stack history\\n\");\n        return false;\n    }\n", replace="", expect=["R04.3:RewindScript:has-refusal", "R04.3:history-read-guarded"]),
     dict(name="drop-restore-vfExec", file="debugger/interpreter.cpp", find="    env.vfExec = env.vfExec_history.back();\n", replace="", expect=["R04.1:field=vfExec", "R04.2:restore:vfExec_history"]),
     dict(name="drop-execdata-history", file="debugger/interpreter.cpp", regex=True, find=r"        env\.execdata_history\.push_back\(env\.execdata\);\n(.*?)            env\.execdata_history\.pop_back\(\);\n(.*?)    env\.execdata = env\.execdata_history\.back\(\);\n(.*?)    env\.execdata_history\.pop_back\(\);\n",
          replace=r"\1\2\3", expect=["R04.1:field=execdata"]),
